@@ -18,6 +18,7 @@ RULE = ("event histories (4..18 events) over {connect request (interface.connect
         "model; the oracle checks the property's clauses on the real trace. stream 'dispcontract': the real asyncore dispatcher object in the "
         "connecting / connected state (no network) must answer disconnect / close / connect-event / send with the same callbacks as the dispatcher double. thorough: all histories up to length 6. distinct = distinct history.")
 RULE += (" stream 'realdisp' also asks for the disconnect from an application thread on an idle connection (both real dispatchers): the peer must see the end and DISCONNECTED must be announced.")
+RULE += (' Event pingTickAnswered: the answer to a keep-alive ping reaches the stack while the pinging thread is still inside its write.')
 ASSUMPTIONS = ["dispatcher double implements the asyncore dispatcher's contract (connect -> later handle_connect | handle_error; disconnect -> synchronous "
                "handle_close -> onDisconnected; sendData dropped unless connected); real sockets / DNS / TLS are not exhibited",
                "the keep-alive thread runs on a virtual clock (one real loop iteration per tick); the noise and axolotl layers' reset on DISCONNECTED is C04's / C14's subject"]
@@ -54,8 +55,13 @@ class FakeDispatcher(object):
     def disconnect(self):
         self.handle_close()
 
+    answer_inside_write = None       # harness hook: called with what is being written, while the writer is still inside its write
+
     def sendData(self, data):
         FakeDispatcher.LOG.append(("written:%d" % self.idx) if self._connected else "dropped")
+        hook = FakeDispatcher.answer_inside_write
+        if hook is not None and self._connected:
+            hook(data)
 
 
 class RaisingTop(Probe):
@@ -145,6 +151,9 @@ def cases(chk):
             yield "reboot", {"end": end, "reconnect": rec, "seed": i * 2 + rec}
     corpus = [
         ["connectReq", "dConnected", "success", "pingTick", "pong:1", "pingTick", "pingTick", "loop"],
+        # the answer to a ping reaches the stack while the pinging thread is still inside its write (the reader thread wins the race): it counts
+        ["connectReq", "dConnected", "success", "pingTickAnswered", "pingTick", "pong:1", "pingTickAnswered", "pingTickAnswered", "pingTick", "loop"],
+        ["connectReq", "dConnected", "success", "pingTickAnswered", "pingTickAnswered", "pingTickAnswered", "appSend"],
         ["connectReq", "dConnected", "success", "pingTick", "pong:1", "pingTick", "pong:1", "pingTick", "pong:0", "pingTick", "loop"],
         ["connectReq", "dConnected", "failure", "loop", "appSend", "connectReq", "dConnected", "success"],
         ["connectReq", "dConnected", "streamError:ack", "loop", "dConnected", "success", "appSend"],
@@ -187,7 +196,7 @@ def cases(chk):
                 e = r.choice(["success", "success", "failure", r.choice(errs), "appSend", "dClosed", "disconnectReq"])
                 st = "authed" if e == "success" else "down" if e != "appSend" else st
             else:
-                e = r.choice(["pingTick", "pingTick", "pingTick", "pong:1", "pong:1", "pongRaises", "pong:0", "appSend", r.choice(errs), "dClosed", "disconnectReq", "success", r.choice(["setReconnect:0", "setReconnect:1"])])
+                e = r.choice(["pingTick", "pingTick", "pingTick", "pingTickAnswered", "pong:1", "pong:1", "pongRaises", "pong:0", "appSend", r.choice(errs), "dClosed", "disconnectReq", "success", r.choice(["setReconnect:0", "setReconnect:1"])])
                 st = "down" if (e.startswith("streamError") or e in ("dClosed", "disconnectReq")) else st
             evs.append(e)
             if st == "down" and r.random() < 0.6:
@@ -781,6 +790,9 @@ def run_case(chk, stream, case):
                 continue
             target = cands[-1]
             arg = " %d" % target.idx
+        prompt_pong = ev == "pingTickAnswered"
+        if prompt_pong:
+            ev = "pingTick"          # a ping tick whose answer reaches the stack while the pinging thread is still inside its write
         if d.ask("life allowed %s%s" % (ev, arg)) != "1":
             continue
         executed.append(ev + arg)
@@ -806,6 +818,17 @@ def run_case(chk, stream, case):
                 net.receive(_node(ev, ei + len(case["events"])))
             elif ev == "pingTick":
                 th = getattr(iq, "_pingThread", None)
+                answered_inside = []
+                if prompt_pong:
+                    def hook(data, answered_inside=answered_inside):
+                        from yowsup.layers.protocol_iq.protocolentities import ResultIqProtocolEntity
+                        FakeDispatcher.answer_inside_write = None
+                        pid = getattr(data, "getAttributeValue", lambda k: None)("id") if getattr(data, "tag", None) == "iq" else None
+                        if pid is not None:
+                            answered_inside.append(pid)
+                            net.receive(ResultIqProtocolEntity(_id=pid, _from="s.whatsapp.net").toProtocolTreeNode())
+                    FakeDispatcher.answer_inside_write = hook
+                    chk.hit("ev:pingTickAnswered")
                 if th is not None and not getattr(th, "_verif_done", False):
                     chk.vt.permit_of(th).release()
                     # wait until the thread is back at its sleep, or has ended
@@ -817,6 +840,7 @@ def run_case(chk, stream, case):
                     else:
                         raise InfraError("keep-alive thread did not come back")
                     FakeDispatcher.LOG.append("tickLive")        # harness marker: a running keep-alive thread was due (it pings, written or not, or gives up)
+                FakeDispatcher.answer_inside_write = None
             elif ev.startswith("pong"):
                 from yowsup.layers.protocol_iq.protocolentities import ResultIqProtocolEntity
                 fresh = ev.endswith(":1") or ev == "pongRaises"
@@ -881,10 +905,17 @@ def run_case(chk, stream, case):
         mev = executed[-1]
         model = d.ask("life step %s" % mev)
         mobs = [x for x in model.split(",") if x]
+        answered_now = ev == "pingTick" and prompt_pong and bool(answered_inside)
+        if answered_now and d.ask("life allowed pong:1") == "1":
+            # for the model the answer is the next event
+            mobs += [x for x in d.ask("life step pong:1").split(",") if x]
         # pings: the model says pingSent + written/dropped; the real trace shows the write
         mobs_cmp = [x for x in mobs if x not in ("pingSent", "dropped")]
         obs_cmp = [x for x in obs if x != "dropped"]
         trace_all.append((mev, (obs if open_before else obs + ["noOpenConnectionBefore"]) + (["tickLive"] if tick_live else [])))
+        if answered_now:
+            executed.append("pong:1 (arrived while the pinging thread was still inside its write)")
+            trace_all.append(("pong:1", []))
         if sorted(obs_cmp) != sorted(mobs_cmp) and not diverged:
             fails.append(corr("history:" + ev.split(":")[0], "event #%d %s of %s (opt %s): impl=%s model=%s" % (ei, mev, list(executed), case["opt"], obs, mobs)))
             diverged = True      # the real stack runs on (the model only decides the alphabet from here): the oracle sees the whole history
